@@ -77,6 +77,21 @@ CHECKS = {
    note="value order in merged attributes open; ambiguous multi-candidate merges discarded; level-2 rows not compared after a link-changing replace",
    tech="deterministic simulation: seeded collision histories with reopen/restart vs strategy model",
    ref="DESIGN.md §5 C05"),
+ "C06": dict(level="exploration",
+   text="features.bin is a persisted index: seeded histories (import with shifting transforms, update replace/merge, add_relation with a "
+        "moving child_func, merge_all, reopen/restart) over coordinates on and around every bin boundary and 2**29; after each write op "
+        "the bin column is checked by raw SQL from an outside connection against independent arithmetic, and region()/limit= queries in "
+        "all forms are compared with a full scan of the same database.",
+   note="coordinates/queries sampled from a boundary-biased pool, not enumerated; one-sided queries judged with the statement's two-sided bound",
+   tech="deterministic simulation: seeded write histories with restart + index-invariant observer + query-vs-scan oracle",
+   ref="DESIGN.md §5 C06"),
+ "C11": dict(level="exploration",
+   text="Store conformance of filters/ordering/counts over states reached by import, replace/create_unique/merge updates, deletes, reopen "
+        "and restart; unordered iteration must be input order (model tracks positions through replace and delete); every order_by column "
+        "incl. 'length'/'file_order' as string or tuple, reverse, featuretype collections, strand; counts and distinct-value listings.",
+   note="ties compared as multisets; multi-column reverse not judged; inputs sampled",
+   tech="deterministic simulation: seeded write histories with restart vs scan-and-sort model",
+   ref="DESIGN.md §5 C11"),
 }
 
 NA = {
